@@ -116,6 +116,11 @@ pub fn strata_for(prop: &str, tier: Tier) -> Vec<Stratum> {
                 v.push(Stratum::Raw { bytes: b.to_vec(), n: tier.pick(60, 2000) as u32, label });
             }
             push_g2(&mut v, &data, tier.pick(150_000, 5_000_000) as u32, 200);
+            // one machine reused across trials, half of them with do-nothing hooks attached: flags are a function
+            // of the instruction and its inputs, not of who is listening or of what ran before
+            for _ in 0..tier.pick(400, 12_000) {
+                v.push(Stratum::Persist { n: 250 });
+            }
         }
         "C03" => {
             census_strata(&mut v, &[Family::Branch, Family::CallRet]);
